@@ -30,6 +30,18 @@ CHECKS = {
     },
 }
 
+CHECKS['C05'] = {
+    'technique': 'machine-checked proof in Coq (codec combinators, frame codec, streaming decoder by induction over chunks, batch codec) over regenerated layouts + byte-exact differential correspondence',
+    'text': ("Frame type, serde layouts (field order/types), type tags, get_length/write_to_bytes/try_from arms and the limit constants are regenerated "
+             "from protocol/src on every run and their codecs re-proved by generic tactics. Coq proves for all frames of all eight kinds and all header orders: "
+             "decode(encode f ++ rest) = (f, rest); prefix = payload length; for every list of frames and EVERY chunking of the concatenated bytes the "
+             "streaming decoder yields exactly that list and an empty buffer; the encoder refuses exactly payloads > 1 MiB; a prefix > 1 MiB is refused as soon "
+             "as 9 bytes are present; unbatch(batch ms) = ms. The real MessageCodec and batch functions are run on seeded structured/malformed inputs and "
+             "compared byte-for-byte with the extracted model; the property predicate is evaluated on the implementation's own outputs."),
+    'note': "Modelled, not verified: bincode fixint LE format, serde derive order, bytes/tokio_util buffer mechanics (validated by the differential).",
+    'design': 'DESIGN.md section 3 C05',
+}
+
 ALL = ['C%02d' % i for i in range(1, 18)]
 
 PENDING_REASON = "check under construction in this session (model and harness not yet committed); it will be claimed once its check is committed"
